@@ -79,8 +79,18 @@ pub(crate) fn remove_all<Fd: AsFd>(dirfd: Fd, name: &Path) -> Result<(), Error> 
     }
 
     // Fast path -- try to remove it with unlink/rmdir.
-    if remove_inode(dirfd, name).ignore_enoent().is_ok() {
-        return Ok(());
+    let remove_err = match remove_inode(dirfd, name).ignore_enoent() {
+        Ok(()) => return Ok(()),
+        Err(err) => err,
+    };
+
+    // "." and ".." are not entries we can remove -- unlinkat(2) and rmdir(2)
+    // refuse them -- and they name a directory other than a child of dirfd.
+    // Opening them to "empty the directory first" would delete the contents of
+    // dirfd itself or (for "..") of its parent, which for a Root means
+    // everything next to the root directory.
+    if matches!(name.as_os_str().as_bytes(), b"." | b"..") {
+        return Err(remove_err).wrap("cannot remove '.' or '..'");
     }
 
     // Try to delete all children. We need to re-do the iteration until there
